@@ -73,7 +73,9 @@ func (c19) Gen(seed uint64, idx int, tier string) *Scenario {
 	case "lex-late":
 		sc.Src, _ = gen.WithLexFail(r, p, false)
 	case "soup":
-		sc.Src = gen.TokenSoup(r, r.Range(1, 40))
+		// line-oriented oracle: no string constant may denote a line break (cfg.NoNL for the
+		// generated classes); the soup vocabulary has one such literal
+		sc.Src = bytes.ReplaceAll(gen.TokenSoup(r, r.Range(1, 40)), []byte(`\n`), []byte(`\t`))
 	default:
 		if r.Chance(1, 4) && len(p.Toks) > 0 {
 			gen.AddPlant(r, p, "warn.rebind", cfg)
@@ -241,6 +243,19 @@ func (c19) Run(t *testing.T, sc *Scenario) *Outcome {
 	if base.panicText != "" {
 		o.Skipped = true // panics without any option are C06's finding
 		return o
+	}
+	if base.dump != nil {
+		// listing and trace show constants as they are: a constant with a line break in it makes
+		// rows this oracle cannot tell from program output. Not a finding; such inputs are counted.
+		if f, err := bcfmt.Decode(base.dump); err == nil {
+			for _, c := range f.Consts {
+				if c.Type == bcfmt.TStr && strings.ContainsAny(c.S, "\n\r") {
+					o.Skipped = true
+					o.probe("constant_with_line_break_skipped", 1)
+					return o
+				}
+			}
+		}
 	}
 	o.Nontrivial = base.accepted
 	o.Hash = hash64(string(sc.Src))
